@@ -229,6 +229,8 @@ class RoutingMonitor:
 
     def session_begin(self, c, spec, full_candles):
         self.ex = spec['exchange']
+        self.spec_type = spec['type']
+        self.strats = {}
         self.entry_frames = []
         self.reduce_frames = []
         self.sce = {}
@@ -312,6 +314,53 @@ class RoutingMonitor:
 
     def order_rejected(self, c, order, attrs, exc):
         c.scratch['last_rejection_seq'] = c.seq
+        self.judge_rejected_exit(c, attrs, exc)
+
+    def judge_rejected_exit(self, c, attrs, exc):
+        """spot: a declared stop-loss / take-profit row REPLACES the resting orders of its kind.  If the rows of the
+        latest declaration of that kind, together with the resting sells of the other kind that share the order type,
+        fit into the base asset held, the exchange has no reason to refuse the row: a refusal while orders of the
+        replaced declaration still rest means the order the strategy asked for was not submitted because of them."""
+        if self.spec_type != 'spot' or type(exc).__name__ != 'InsufficientBalance':
+            return
+        if attrs.get('side') != 'sell' or attrs.get('type') not in ('STOP', 'LIMIT'):
+            return
+        sym = attrs.get('symbol')
+        strat = self.strats.get(sym)
+        if strat is None or not strat.position.is_open:
+            return
+        q, p = abs(float(attrs.get('qty'))), float(attrs.get('price'))
+        kinds = [k for k in ('sl', 'tp') if any(abs(r[0]) == q and r[1] == p for r in (strat._decl.get(k) or []))]
+        if len(kinds) != 1:
+            return
+        kind = kinds[0]
+        via = 'stop-loss' if kind == 'sl' else 'take-profit'
+        from jesse.store import store
+        import jesse.helpers as jh
+        held = float(store.exchanges.storage[self.ex].assets[jh.base_asset(sym)])
+        reg = c.scratch['registry']
+        from decimal import Decimal
+        others = sum((Decimal(str(abs(r.qty))) for r in reg.active(sym) if r.order.status == ACTIVE and r.side == 'sell' and r.type == attrs.get('type')
+                      and getattr(r.order, 'submitted_via', None) != via), Decimal(0))
+        rows = sum((Decimal(str(abs(r[0]))) for r in strat._decl[kind]), Decimal(0))
+        c.count('c10_rejected_exit_rows_judged')
+        ex = store.exchanges.storage[self.ex]
+        refused_total = float((ex.stop_orders_sum if attrs.get('type') == 'STOP' else ex.limit_orders_sum).get(sym, 0))
+        # orders of the REPLACED declaration of this kind that still rest although a row of the new one is being
+        # submitted (without any, a refusal on the boundary is the exchange's own rounding of its running totals:
+        # its decimal helper rounds every intermediate total to a double - no verdict then)
+        since = getattr(strat, '_decl_at', {}).get(kind)
+        stale = [r for r in reg.active(sym) if r.order.status == ACTIVE and getattr(r.order, 'submitted_via', None) == via
+                 and since is not None and r.seq < since]
+        if not stale:
+            c.count('c10_rejected_exit_without_stale_orders')
+            return
+        if float(others + rows) <= held:   # the exchange refuses a total only when it is greater than the holding
+            others, rows = float(others), float(rows)
+            self.v(c, 'declared-exit-rejected', f"C10|declared-{kind}-row-refused-although-the-declaration-fits-the-holding|type={attrs.get('type')}",
+                   {'row': [q, p], 'declared': list(strat._decl[kind]), 'held': held, 'resting_of_other_kind': others,
+                    'stale_orders_still_resting': [[r.type, r.qty, r.price] for r in stale][:4],
+                    'total_refused_by_exchange': refused_total, 'exc': str(exc)[:200]})
 
     # ---- exits submitted by the framework when the position opens (rows declared in go_long/go_short)
     def order_exec_begin(self, c, order, before):
@@ -362,6 +411,7 @@ class RoutingMonitor:
 
     # ---- after every strategy step
     def hook(self, c, strat, hook, extra):
+        self.strats[strat.symbol] = strat
         if hook != 'after':
             return
         reg = c.scratch['registry']
@@ -483,6 +533,16 @@ class EquityMonitor:
         if len(db) != want_n:
             self.v(c, 'sample-count', f'C16|equity-samples={len(db)}-want={want_n}' if abs(len(db) - want_n) <= 2 else 'C16|equity-sample-count',
                    {'minutes': n, 'got': len(db), 'want': want_n})
+        # "... and it ends at the final portfolio value": the last sample is the account equity once the session
+        # has been wound up (positions force-closed at the end of the session, their exit fee paid)
+        acct = c.scratch.get('account')
+        if db and acct is not None and not acct.ended:
+            want = acct.equity()
+            scale = max(abs(want), abs(self.spec['balance']))
+            c.count('c16_final_sample_checks')
+            if abs(float(db[-1]) - want) > 1e-9 * max(1.0, scale):
+                self.v(c, 'last-sample', f"C16|last-equity-sample-differs-from-final-portfolio-value|type={self.spec['type']}|fast={int(bool(self.spec.get('fast')))}",
+                       {'got': float(db[-1]), 'want': want, 'samples': len(db)})
         m = (res or {}).get('metrics')
         trades = list(store.completed_trades.trades)
         if m is None:
